@@ -74,6 +74,9 @@ def judgeSend (who : String) (m? : Except Err Nat) (send : String) (l nsegs maxs
   if send == "panic" then s!"specfail panic-{who} send"
   else if send == "timeout" then s!"specfail hang-{who} send"
   else if send == "oom" then s!"specfail alloc-unbounded-{who} send"
+  -- an empty segment makes no progress: the sender emits them for ever (Spec, independent of the model)
+  else if nsegs > 0 && minseg == 0 then s!"specfail hang-{who} empty-segment"
+  else if maxseg > maxSegmentMtu then s!"specfail alloc-unbounded-{who} segment-larger-than-limit"
   else match m? with
     | .error _ => if send == "err" then "ok" else s!"diff {who} model=err impl={send}"
     | .ok m =>
